@@ -251,6 +251,9 @@ def decl_module(d, ops_wanted):
     if "PartialEq" in info.traits:
         # != and the comparison of a value with itself (the same object, and a clone when there is Clone)
         cmpf.append('out.push_str(&format!("ne={} ine={} self={}{} iself={}{} ", b(tx != ty), b(ix != iy), b(tx == tx), b(ty == ty), b(ix == ix), b(iy == iy)));')
+    if "Clone" in info.traits:
+        # clone_from into an existing value of another content
+        cmpf.append('{ let mut u = ty.clone(); u.clone_from(&tx); let mut iu = iy.clone(); iu.clone_from(&ix); out.push_str(&format!("cf={} icf=1 ", b(u.into_inner().same(&iu)))); }')
     if "PartialOrd" in info.traits:
         cmpf.append('out.push_str(&format!("pcmp={} ipcmp={} ", ord_s(tx.partial_cmp(&ty)), ord_s(ix.partial_cmp(&iy))));')
         cmpf.append('out.push_str(&format!("ops={}{}{}{} iops={}{}{}{} ", b(tx < ty), b(tx <= ty), b(tx > ty), b(tx >= ty), b(ix < iy), b(ix <= iy), b(ix > iy), b(ix >= iy)));')
